@@ -156,6 +156,15 @@ def case_functions(case):
         pk, fk = float(_psiM(zz, LL)[0]), float(_phiC(zz, LL)[0])
         if abs(p - pk) > 1e-10 * max(1.0, abs(p)) or abs(f - fk) > 1e-10 * max(1.0, abs(f)):
             v.append({"sub": "reference-copies", "sig": "reference-copies", "msg": "x=%g: psi/phi of the profile module (%.10g, %.10g) differ from the reference model's copies (%.10g, %.10g)" % (x, p, f, pk, fk)})
+    # the reference model's copies must agree for integer-typed heights / lengths as well
+    for zi, Li, dt in itertools.product((2, 10, 30), (-20, -500, 30, 200), (int, np.int64, np.int32, float)):
+        n += 1
+        zz, LL = np.array([zi], dtype=dt), np.array([Li], dtype=dt)
+        x = zi / Li
+        pk, fk, mk = float(_psiM(zz, LL)[0]), float(_phiC(zz, LL)[0]), float(_phiM(zz, LL)[0])
+        if abs(pk - float(psi(x))) > 1e-10 * max(1, abs(pk)) or abs(fk - float(phi(x))) > 1e-10 * max(1, abs(fk)) or abs(mk - float(most.phi_m(x))) > 1e-10:
+            v.append({"sub": "reference-copies", "sig": "reference-copies/%s" % ("integer" if dt is not float else "float"),
+                      "msg": "z=%d, L=%d given as %s arrays: the reference model's psi/phi_c/phi_m copies give (%.10g, %.10g, %.10g), the profile module's functions (%.10g, %.10g, %.10g)" % (zi, Li, np.dtype(dt).name, pk, fk, mk, float(psi(x)), float(phi(x)), float(most.phi_m(x)))})
     for x in (-20.0, -3.0, -0.5, -1e-3, 1e-3, 0.7, 4.0, 20.0):
         n += 1
         q = most.Psi_quad(x)
